@@ -128,7 +128,10 @@ func mutSFO(r *rng, titleID string, kind int) []byte {
 	return b
 }
 
-var hostileTitleIDs = []string{"BLES12345", "", "A", "ABC", "ABCD", "ABCDE", strings.Repeat("T", 31), strings.Repeat("T", 32), strings.Repeat("T", 40), "BL\xffS1", "ÜÜÜÜ"}
+var hostileTitleIDs = []string{"BLES12345", "", "A", "ABC", "ABCD", "ABCDE", strings.Repeat("T", 31), strings.Repeat("T", 32), strings.Repeat("T", 40), "BL\xffS1", "ÜÜÜÜ",
+	// few characters, many bytes: the product-code field is 32 BYTES wide (valid multi-byte UTF-8, so that
+	// a guard counting characters instead of bytes lets them through)
+	"BLES" + strings.Repeat("é", 14), strings.Repeat("é", 16), "BLES" + strings.Repeat("\U0001F600", 7), strings.Repeat("é", 15) + "Z", strings.Repeat("é", 15)}
 
 var hostileNames = []string{
 	strings.Repeat("L", 255), strings.Repeat("é", 127), "bad\xff\xfeutf8", "tab\there", "new\nline", "semi;colon.v;1", ".", "trailing.", " lead", "x\x01\x02ctl",
@@ -334,6 +337,15 @@ func c04Worlds(o *out, r *rng, thorough bool) {
 			reqs = append(reqs, creq{op: opOpenDir, path: "/PS3ISO"}, creq{op: opReadDirEntry}, creq{op: opReadDirEntryV2}, creq{op: opReadDirEntry}, creq{op: opReadDirEntry})
 		}
 		runWithOracle(o, t, false, reqs, fmt.Sprintf("w%d", i), nil)
+	}
+	// every hostile TITLE_ID, always in PS3 mode (the product code is built from it)
+	for ti, tid := range hostileTitleIDs {
+		t := &tree{}
+		t.add(tnode{path: "/", kind: 'd', mtime: genMtime(r)})
+		t.add(tnode{path: "/GAMES", kind: 'd', mtime: genMtime(r)})
+		dir := hostileGame(t, r, "tid", 0, tid, o)
+		reqs := []creq{{op: opOpenFile, path: "/***PS3***" + dir}, {op: opReadFile, a: 4096, b: 2048}}
+		runWithOracle(o, t, false, reqs, fmt.Sprintf("titleid%d", ti), nil)
 	}
 	// the parser's own limits (declared value length, key length), every variant, always in PS3 mode
 	for _, kind := range []int{13, 14} {
@@ -668,6 +680,62 @@ func c04BlackBox(o *out, r *rng, thorough bool) {
 		var paths []string
 		for _, nd := range t.nodes {
 			paths = append(paths, nd.path)
+		}
+		// first a sweep that does not depend on the draw: every game directory as a PS3 image and as a DVD
+		// image, every file of /PS3ISO as it is - each opened once and read a little
+		{
+			var streams [][]byte
+			for _, nd := range t.nodes {
+				var views []string
+				switch {
+				case nd.kind == 'd' && strings.HasPrefix(nd.path, "/GAMES/") && strings.Count(nd.path, "/") == 2:
+					views = []string{"/***PS3***", "/***DVD***"}
+				case nd.kind == 'f' && strings.HasPrefix(nd.path, "/PS3ISO/"):
+					views = []string{""}
+				}
+				for _, v := range views {
+					var s []byte
+					s = append(s, creq{op: opOpenFile, path: v + nd.path}.bytes()...)
+					s = append(s, creq{op: opReadFile, a: 4096, b: 2048}.bytes()...)
+					s = append(s, creq{op: opReadFileCritical, a: 100, b: 0}.bytes()...)
+					streams = append(streams, s)
+				}
+			}
+			byAll := true
+			for lo := 0; lo < len(streams); lo += 16 {
+				var wg sync.WaitGroup
+				for _, s := range streams[lo:min(lo+16, len(streams))] {
+					wg.Add(1)
+					go func(s []byte) { defer wg.Done(); sendHostile(srv.addr(), s, 400*time.Millisecond) }(s)
+				}
+				wg.Wait()
+				// the bystander is an ordinary client under the server's 3 s read timeout: it keeps
+				// asking while the sweep runs, and every answer must be right
+				if !by.check() {
+					byAll = false
+				}
+			}
+			proc, alive, byOK := 0, 0, "bad"
+			if srv.alive() {
+				proc = 1
+			}
+			if statRootProbe(srv.addr(), 3*time.Second) {
+				alive = 1
+			}
+			if byAll && by.check() {
+				byOK = "ok"
+			}
+			line := fmt.Sprintf("proc=%d alive=%d by=%s", proc, alive, byOK)
+			o.count("bb:sweep")
+			if proc == 0 || alive == 0 || byOK == "bad" {
+				line += " note=" + strings.ReplaceAll(srv.tail(), " ", "_")
+				o.emit(fmt.Sprintf("c04 bb sweep %d", len(streams)), line, "", "bbsweep")
+				if !restart() {
+					return
+				}
+			} else {
+				o.emit(fmt.Sprintf("c04 bb sweep %d", len(streams)), line, "", "bbsweep")
+			}
 		}
 		for i := 0; i < n; i++ {
 			kind := r.picks("rand", "mut", "extreme", "extreme", "target", "flood")
